@@ -63,7 +63,10 @@ pub fn gen_history(r: &mut StdRng, prog: &Program, steps: usize, restarts: bool)
             }
             60..=89 => {
                 acts.push(Action::Begin);
-                let ns = r.gen_range(0..=3);
+                // half of the sessions change exactly one input (the common
+                // case in real use, and the one in which a single missing
+                // invalidation is not masked by another change)
+                let ns = if r.gen_bool(0.5) { 1 } else { r.gen_range(0..=3) };
                 for _ in 0..ns {
                     if inputs.is_empty() {
                         break;
@@ -82,6 +85,15 @@ pub fn gen_history(r: &mut StdRng, prog: &Program, steps: usize, restarts: bool)
                     }
                 }
                 acts.push(Action::Commit);
+                // often ask for the topmost nodes first: what sits above
+                // everything else is verified before anything below it has
+                // been re-verified by another request
+                if r.gen_bool(0.5) {
+                    let top = r.gen_range(1..=3.min(n));
+                    for j in 0..top {
+                        acts.push(Action::Query { t: 0, n: n - j });
+                    }
+                }
                 k += 1;
             }
             90..=94 if !exts.is_empty() => {
